@@ -23,12 +23,23 @@ def gen_tokens(rng):
         elif x < 0.6: toks.append(rng.choice(["y7,100;", "y10,%d;" % rng.randint(0, 127), "V(90)", "EP(%d)" % rng.randint(0, 127), "@%d;" % rng.randint(1, 128), "Tempo(%d)" % rng.randint(60, 200), "P(64)"]))
         elif x < 0.7: toks.append(rng.choice(["INT A=3;", "INT B=A+1;", "PRINT(A);", "A=A+1;", "IF(A>2){ c }", "FOR(INT I=0;I<2;I++){ d }", "TIME(2:1:0)", "KeyShift(1)"]))
         elif x < 0.8: toks.append(rng.choice(["#M={c d}", "#M", "STR S2={e f};", "S2", "Sub{c e}", "[2 c d]", "{c d e}4", "'ceg'2"]))
-        else: toks.append(rng.choice(["c", "d8", "r4", "l8", "o5", "v100", "q90", ">", "<", "n60,4", "g2^8"]))
+        elif x < 0.9: toks.append(rng.choice(["c", "d8", "r4", "l8", "o5", "v100", "q90", ">", "<", "n60,4", "g2^8"]))
+        else:
+            # an expression-valued argument closed by nothing but the line break (marked with a trailing NUL), often followed by a command
+            # that starts with a character that is an operator inside expressions
+            toks.append(rng.choice(["@%d" % rng.randint(1, 128), "y7,%d" % rng.randint(0, 127), "TR=%d" % rng.randint(1, 4), "Tempo=%d" % rng.randint(60, 200), "INT A=%d" % rng.randint(0, 9), "A=A+1", "v=%d" % rng.randint(1, 127), "o=%d" % rng.randint(3, 6), "KeyShift=2", "PRINT(A)"]) + "\0")
+            if rng.random() < 0.7: toks.append(rng.choice([">", "<", ">c", "<d8", "(c)", "-c", "+c", "*c" if False else "c", "'ce'", "[2 c]", "{c d}4"]))
     return [t for t in toks if t]
+
+NL_SEPS = ["\n", "\r\n", "\n\n", " \n", "\t\n ", " //%s\n", "\t// %s\n", " /*%s*/\n", "\n##%s\n", "\n# %s\n", "\n#-%s\n"]
 
 def layout(rng, toks, rich=True):
     out = []
     for i, t in enumerate(toks):
+        if t.endswith("\0"):
+            out.append(t[:-1]); sep = rng.choice(NL_SEPS if rich else NL_SEPS[:5])
+            out.append(sep % rng.choice(COMMENT_TEXT).replace("*", "") if "%s" in sep else sep)
+            continue
         out.append(t)
         if i == len(toks) - 1: break
         r = rng.random()
@@ -57,7 +68,7 @@ def streams(tier, rng, P, only=None, cases=None):
         n = 8000 if big else 1000
         for i in range(n):
             toks = gen_tokens(rng)
-            a = " ".join(toks)
+            a = "".join(t[:-1] + "\n" if t.endswith("\0") else t + " " for t in toks)
             if i % 5 == 4 and not any(("{" in t or '"' in t or "#" in t or "/" in t) for t in toks):
                 b = widen(layout(rng, toks, rich=False)); kind = "wide"
             else:
